@@ -52,11 +52,6 @@ def search_streams(tier, seed, diffs):
 
 
 MANIFEST = dict(
-    level_text=("Theorems in Props/C14.v about the Gallina model of parser.rs (character-level lexer, token stack machine): see REPORT-C14.md for the list "
-                "(round trip of writer output, value forms, lexing of printed tokens, truncated input). Tie to /repo: the real parse_expr / parse_command / "
-                "read_command / get_value / get_unsat_assumptions run on every generated case and are compared with the extracted model (trees and "
-                "Ok/Err/Panic/Hang classes) and judged by the extracted reference front end."),
-    level_note=("Trusted: Coq kernel; Spec/Smt.v; hand-written model tied by differential execution. The reader violates the property on malformed input (panics, "
-                "a hang) and on several writer outputs: recorded as known findings. The model has a repaired variant (Fix = /repo with patches/0003..0015, "
-                "see patches/SMT-README.txt) with the full-strength theorems; ocaml/driver/c05.ml code_variant says which variant the checked code is."),
+    level_text='Theorems in Props/C14.v about the Gallina model of parser.rs (character-level lexer, token stack machine, check_operands), variant Fix2 = the reader in /repo: C14_never_panics / C14_parse_command_never_panics / C14_read_command_total / C14_get_value_never_panics / C14_unsat_assumptions_never_panics / C14_machine_never_panics (NO text makes the reader panic or spin: malformed input is an error), C14_parse_ser(_fix,_text) and C14_parse_cmd_ser(_fix), C14_cmd_read_back_fix (the reader inverts the writer on terms and commands, all names), C14_value_parse (solver value forms incl. arrays), C14_lex_print, C14_trailing_token_error; the _refuted theorems are about the readers before the repairs. Tie to /repo: the real parse_expr / parse_command / read_command / get_value / get_unsat_assumptions run on every generated case (writer output, solver values, truncations, unbalanced and balanced ill-sorted variants, delimiter-laden names, redeclare scripts) and are compared with the extracted model (trees and Ok/Err/Panic/Hang classes) and judged by the extracted reference front end.',
+    level_note='Trusted: Coq kernel; Spec/Smt.v; hand-written model tied by differential execution. The reader violated the property on malformed input (panics, a hang) and on several writer outputs: all repaired in /repo (14 fix: commits, see patches/SMT-README.txt); the older readers keep their _refuted theorems; ocaml/driver/c05.ml code_variant = Fix2 mirrors /repo. Width arithmetic near 2^32 is outside the model. No open finding.',
 )
